@@ -18,7 +18,7 @@ listed in REQUIRED that is skipped makes the translation fail loudly.
 import ast
 import os
 
-MODULES = ['suit', 'pair', 'vul', 'player', 'bid', 'card', 'contract', 'score', 'bidding_phase', 'playing_phase']
+MODULES = ['suit', 'pair', 'vul', 'player', 'bid', 'card', 'contract', 'score', 'bidding_phase', 'playing_phase', 'hands']
 
 # functions the theorems are about: (class or '', name)
 REQUIRED = [
@@ -42,6 +42,8 @@ REQUIRED = [
     ('ObservedPlayingPhase', '__init__'), ('ObservedPlayingPhase', 'play_card_by_player'),
     ('ObservedPlayingPhase', 'set_dummy_hand'), ('ObservedPlayingPhase', 'current_available_cards_in_hand'),
     ('ObservedPlayingPhase', 'current_available_cards_in_dummy_hand'),
+    ('Hands', '__init__'), ('Hands', '__getitem__'), ('Hands', 'to_pbn'), ('Hands', '_convert_hand_to_pbn'),
+    ('Hands', 'to_binary'), ('Hands', 'to_dict'), ('Hands', 'convert_binary'),
 ]
 
 K = {'value': 1, 'name': 2, '__str__': 3, '__int__': 4, '__lt__': 5, '__le__': 6, '__gt__': 7, '__ge__': 8,
@@ -761,7 +763,8 @@ class Translator:
     # ------------------------------------------------------------------ output
     GROUPS = [('Base', ['suit', 'pair', 'vul', 'player', 'bid', 'card', 'contract', 'score'], 100),
               ('Auction', ['bidding_phase'], 2000),
-              ('Play', ['playing_phase'], 3000)]
+              ('Play', ['playing_phase'], 3000),
+              ('Hands', ['hands'], 4000)]
 
     def names_of(self, module):
         names = set()
@@ -909,7 +912,7 @@ open Bridge.Py
 '''
 
 
-FILES = ['PyCoreBase.lean', 'PyCoreAuction.lean', 'PyCorePlay.lean', 'PyCore.lean']
+FILES = ['PyCoreBase.lean', 'PyCoreAuction.lean', 'PyCorePlay.lean', 'PyCoreHands.lean', 'PyCore.lean']
 
 
 def generate(repo):
